@@ -1,7 +1,3 @@
 SPECIFICATION Spec
-CONSTANTS
-  BBase = 1048576
-  BW = 7
-  Week = 604800
 POSTCONDITION Done
 CHECK_DEADLOCK FALSE
